@@ -43,6 +43,12 @@ def descriptors(cls) -> List[Tuple[str, Any]]:
     return out
 
 
+def _f32(bits: int) -> float:
+    import struct
+
+    return struct.unpack("<f", struct.pack("<I", bits))[0]
+
+
 def str_alphabet(n: int) -> List[str]:
     """values for a char[n] field (at most n-1 characters)"""
     k = n - 1
@@ -61,7 +67,14 @@ def field_values(d, profile: Optional[str] = None) -> List[Any]:
     if isinstance(d, V.FloatValidatorBase):
         mx = F32MAX if d._ctype is ctypes.c_float else F64MAX
         vals = {"zero": 0.0, "min": -mx, "max": mx, "mixed": 0.1, "mixed2": -0.0}
-        return [vals[profile]] if profile else [0.0, -0.0, mx, -mx, NAN, 0.1, 1e-45 if d._ctype is ctypes.c_float else 5e-324, 3]
+        if profile:
+            return [vals[profile]]
+        if d._ctype is ctypes.c_float:
+            # values whose shortest exact decimal needs all 9 significant digits, the neighbours of a power of two, the smallest normal
+            dense = [_f32(0x447FFFFF), _f32(0x3DD58E21), _f32(0x4E7FFFFF), _f32(0x3F800001), _f32(0x00800000), _f32(0x7F7FFFFE), -_f32(0x3EAAAAAB)]
+        else:
+            dense = [0.1 + 0.2, 1 / 3, 5e-324 * 3, 2.0 ** 53 + 2, -2.2250738585072014e-308, 1.7976931348623155e308]
+        return [0.0, -0.0, mx, -mx, NAN, 0.1, 1e-45 if d._ctype is ctypes.c_float else 5e-324, 3] + dense
     if isinstance(d, V.Char):
         vals = {"zero": "\x00", "min": "\x01", "max": "\x7f", "mixed": '"', "mixed2": "\\"}
         return [vals[profile]] if profile else ["a", '"', "\\", "\x01", "\x7f", "\n", "\x00"]
